@@ -479,6 +479,11 @@ fn generate_root_definitions(
     for decl in decls {
         let (namespace, mut defs) = generate_root_definition(module, decl, context)?;
 
+        // A definition that generates nothing does not need its namespace either
+        if defs.is_empty() {
+            continue;
+        }
+
         // Push into namespaces from the root
         // We will clean up the number of namespace nodes at the end
         let mut current_namespace = namespace;
